@@ -204,6 +204,7 @@ def run(eng, rep):
                 "(scaling, projections, regulariser): every clamp / scaling / callback site has frame-consistent operands and the value reaching objfun and "
                 "soln.x carries the facts lo:user.xl and hi:user.xu (last operation on every path is a clamp against the user's bounds); "
                 "(5) who-may-write inventory for xbase/sl/su and affine normal forms proving sl+xbase, su+xbase, points+xbase invariant under shift_base.")
+    rep.explain('Also decided: scaling is off unless both bounds are given (interpreter run per incomplete bound pattern, C01-7); one-sided / absent bound patterns are analysed as configurations of their own (each supplied side must be the last clamp); the two x0 clamp stanzas of solve are reflections of each other (T14, C01-8).')
     rep.assumptions += ["IEEE min/max return one of their operands", "bounds are consistent (lower <= upper)", "dykstra performs at least one sweep (its result is the last projector's output: C15-2)"]
     A = anchors(eng)
     c02.rule_single_sink(eng, rep, A, rule="C01-1.single-sink")
